@@ -138,73 +138,8 @@ func runC05(c *Ctx) {
 	c.Floors["G"] = 8
 	c.Floors["O"] = 12
 
-	walWrite := CallTo(`^iface:\(consensus\.WAL\)\.(Write|WriteSync)$`, "")
-	// ---- receiveRoutine -----------------------------------------------------------------------------
-	if fn := c.Fn("consensus", "ConsensusState", "receiveRoutine"); fn != nil {
-		handle := CallTo(csT+`\.(handleMsg|handleTimeout)$`, "")
-		c.Precedes(fn, "wal.Write/WriteSync", walWrite, "handleMsg/handleTimeout", handle)
-		// select cases: 0 = peer queue, 1 = internal queue
-		sel := ""
-		allInstrs(fn, false, func(_ *ssa.Function, in ssa.Instruction) {
-			if s, ok := in.(*ssa.Select); ok {
-				sel = pathOf(s)
-			}
-		})
-		okSel := strings.HasPrefix(sel, "select[recv:cs.peerMsgQueue, recv:cs.internalMsgQueue, ")
-		c.Check("T", fnName(fn)+"/select cases are (peer queue, internal queue, timeout, quit)", okSel, fn.Pos(), 1, sel)
-		c.Guarded(fn, "handleMsg", CallTo(csT+`\.handleMsg$`, ""),
-			G("message is from the peer queue, or WriteSync(mi) == nil", IsNil(`^call:iface:\(consensus\.WAL\)\.WriteSync\(cs\.wal, (mi|select\[.*\]#3)\)$`), Cmp(`^select\[.*\]#0$`, "==", `^const:0$`)))
-		// what is written is what is handled
-		for _, in := range findInstrs(fn, walWrite) {
-			a := argPaths(callCommon(in))
-			c.Check("F", fnName(fn)+"/WAL record is the received message", len(a) == 2 && (a[1] == "mi" || strings.HasPrefix(a[1], "select[")), instrPos(in), 1, describeInstr(in))
-		}
-	}
-	c.OnlyCalledFrom("handleMsg only from receiveRoutine and WAL replay", `^`+csT+`\.handleMsg$`, 2, `^`+csT+`\.(receiveRoutine|readReplayMessage)$`)
-	c.OnlyCalledFrom("handleTimeout only from receiveRoutine and WAL replay", `^`+csT+`\.handleTimeout$`, 2, `^`+csT+`\.(receiveRoutine|readReplayMessage)$`)
-
-	// ---- fsync reach -----------------------------------------------------------------------------------
-	if fn := c.Fn("consensus", "BaseWAL", "WriteSync"); fn != nil {
-		c.Guarded(fn, "return nil (non-nil wal)", func(in ssa.Instruction) bool {
-			return SuccessReturn(0, "")(in) && in.Block() != fn.Blocks[0].Succs[0]
-		},
-			G("wal.Write(msg) == nil", IsNil(`^call:\(\*consensus\.BaseWAL\)\.Write\(wal, msg\)$`)),
-			G("wal.FlushAndSync() == nil", IsNil(`^call:\(\*consensus\.BaseWAL\)\.FlushAndSync\(wal\)$`)))
-		c.Precedes(fn, "wal.Write", CallTo(`^\(\*consensus\.BaseWAL\)\.Write$`, ""), "FlushAndSync", CallTo(`^\(\*consensus\.BaseWAL\)\.FlushAndSync$`, ""))
-	}
-	if fn := c.Fn("consensus", "BaseWAL", "FlushAndSync"); fn != nil {
-		ok := false
-		for _, in := range findInstrs(fn, AnyReturn()) {
-			ok = pathOf(in.(*ssa.Return).Results[0]) == "call:(*lib/autofile.Group).FlushAndSync(wal.group)"
-		}
-		c.Check("O", fnName(fn)+"/is group.FlushAndSync()", ok, fn.Pos(), 1, "")
-	}
-	if fn := c.Fn("consensus", "BaseWAL", "Write"); fn != nil {
-		c.Guarded(fn, "return nil (non-nil wal)", func(in ssa.Instruction) bool {
-			return SuccessReturn(0, "")(in) && in.Block() != fn.Blocks[0].Succs[0]
-		}, G("enc.Encode(&TimedWALMessage{now, msg}) == nil", IsNil(`^call:\(\*consensus\.WALEncoder\)\.Encode\(wal\.enc, `)))
-	}
-	if fn := c.Fn("lib/autofile", "Group", "FlushAndSync"); fn != nil {
-		flush := CallTo(`^\(\*bufio\.Writer\)\.Flush$`, `Flush\(g\.headBuf\)`)
-		sync := CallTo(`^\(\*lib/autofile\.AutoFile\)\.Sync$`, `Sync\(g\.Head\)`)
-		c.OnEveryPath(fn, "headBuf.Flush()", flush, "return", AnyReturn())
-		c.Precedes(fn, "headBuf.Flush()", flush, "Head.Sync()", sync)
-		// a nil error is returned only after Sync
-		c.Guarded(fn, "Head.Sync()", sync, G("Flush error == nil", IsNil(`^call:\(\*bufio\.Writer\)\.Flush\(g\.headBuf\)$`)))
-		n := len(findInstrs(fn, sync))
-		c.Check("O", fnName(fn)+"/calls Head.Sync()", n == 1, fn.Pos(), n, "FlushAndSync must fsync the head file")
-		okRet := false
-		for _, in := range findInstrs(fn, AnyReturn()) {
-			p := pathOf(in.(*ssa.Return).Results[0])
-			okRet = strings.Contains(p, "call:(*lib/autofile.AutoFile).Sync(g.Head)") || strings.Contains(p, "alloc")
-		}
-		c.Check("O", fnName(fn)+"/returns Sync's error when Flush succeeded", okRet, fn.Pos(), 1, "")
-	}
-	if fn := c.Fn("lib/autofile", "AutoFile", "Sync"); fn != nil {
-		n := len(findInstrs(fn, CallTo(`^\(\*os\.File\)\.Sync$`, `Sync\(af\.file\)`)))
-		c.Check("O", fnName(fn)+"/calls file.Sync()", n == 1, fn.Pos(), n, "")
-		c.Guarded(fn, "file.Sync()", CallTo(`^\(\*os\.File\)\.Sync$`, ""), G("file is open (or openFile succeeded)", NotNil(`^af\.file$`), IsNil(`^call:\(\*lib/autofile\.AutoFile\)\.openFile\(af\)$`)))
-	}
+	walAheadRules(c)
+	walDecodeRules(c)
 
 	// ---- finalizeCommit ordering ------------------------------------------------------------------------
 	if fn := c.Fn("consensus", "ConsensusState", "finalizeCommit"); fn != nil {
@@ -423,5 +358,78 @@ func (c *Ctx) atomicBatch(which []batchFn) {
 				return ""
 			}())
 		}
+	}
+}
+
+// walAheadRules: own messages are fsynced to the WAL before they are handled (and so before an own vote or proposal
+// can reach a peer), and WriteSync really reaches the disk. Shared by C05 (crash recovery) and C03 (no equivocation
+// across a restart: the WAL is the only record of what was signed).
+func walAheadRules(c *Ctx) {
+	walWrite := CallTo(`^iface:\(consensus\.WAL\)\.(Write|WriteSync)$`, "")
+	// ---- receiveRoutine -----------------------------------------------------------------------------
+	if fn := c.Fn("consensus", "ConsensusState", "receiveRoutine"); fn != nil {
+		handle := CallTo(csT+`\.(handleMsg|handleTimeout)$`, "")
+		c.Precedes(fn, "wal.Write/WriteSync", walWrite, "handleMsg/handleTimeout", handle)
+		// select cases: 0 = peer queue, 1 = internal queue
+		sel := ""
+		allInstrs(fn, false, func(_ *ssa.Function, in ssa.Instruction) {
+			if s, ok := in.(*ssa.Select); ok {
+				sel = pathOf(s)
+			}
+		})
+		okSel := strings.HasPrefix(sel, "select[recv:cs.peerMsgQueue, recv:cs.internalMsgQueue, ")
+		c.Check("T", fnName(fn)+"/select cases are (peer queue, internal queue, timeout, quit)", okSel, fn.Pos(), 1, sel)
+		c.Guarded(fn, "handleMsg", CallTo(csT+`\.handleMsg$`, ""),
+			G("message is from the peer queue, or WriteSync(mi) == nil", IsNil(`^call:iface:\(consensus\.WAL\)\.WriteSync\(cs\.wal, (mi|select\[.*\]#3)\)$`), Cmp(`^select\[.*\]#0$`, "==", `^const:0$`)))
+		// what is written is what is handled
+		for _, in := range findInstrs(fn, walWrite) {
+			a := argPaths(callCommon(in))
+			c.Check("F", fnName(fn)+"/WAL record is the received message", len(a) == 2 && (a[1] == "mi" || strings.HasPrefix(a[1], "select[")), instrPos(in), 1, describeInstr(in))
+		}
+	}
+	c.OnlyCalledFrom("handleMsg only from receiveRoutine and WAL replay", `^`+csT+`\.handleMsg$`, 2, `^`+csT+`\.(receiveRoutine|readReplayMessage)$`)
+	c.OnlyCalledFrom("handleTimeout only from receiveRoutine and WAL replay", `^`+csT+`\.handleTimeout$`, 2, `^`+csT+`\.(receiveRoutine|readReplayMessage)$`)
+
+	// ---- fsync reach -----------------------------------------------------------------------------------
+	if fn := c.Fn("consensus", "BaseWAL", "WriteSync"); fn != nil {
+		c.Guarded(fn, "return nil (non-nil wal)", func(in ssa.Instruction) bool {
+			return SuccessReturn(0, "")(in) && in.Block() != fn.Blocks[0].Succs[0]
+		},
+			G("wal.Write(msg) == nil", IsNil(`^call:\(\*consensus\.BaseWAL\)\.Write\(wal, msg\)$`)),
+			G("wal.FlushAndSync() == nil", IsNil(`^call:\(\*consensus\.BaseWAL\)\.FlushAndSync\(wal\)$`)))
+		c.Precedes(fn, "wal.Write", CallTo(`^\(\*consensus\.BaseWAL\)\.Write$`, ""), "FlushAndSync", CallTo(`^\(\*consensus\.BaseWAL\)\.FlushAndSync$`, ""))
+	}
+	if fn := c.Fn("consensus", "BaseWAL", "FlushAndSync"); fn != nil {
+		ok := false
+		for _, in := range findInstrs(fn, AnyReturn()) {
+			ok = pathOf(in.(*ssa.Return).Results[0]) == "call:(*lib/autofile.Group).FlushAndSync(wal.group)"
+		}
+		c.Check("O", fnName(fn)+"/is group.FlushAndSync()", ok, fn.Pos(), 1, "")
+	}
+	if fn := c.Fn("consensus", "BaseWAL", "Write"); fn != nil {
+		c.Guarded(fn, "return nil (non-nil wal)", func(in ssa.Instruction) bool {
+			return SuccessReturn(0, "")(in) && in.Block() != fn.Blocks[0].Succs[0]
+		}, G("enc.Encode(&TimedWALMessage{now, msg}) == nil", IsNil(`^call:\(\*consensus\.WALEncoder\)\.Encode\(wal\.enc, `)))
+	}
+	if fn := c.Fn("lib/autofile", "Group", "FlushAndSync"); fn != nil {
+		flush := CallTo(`^\(\*bufio\.Writer\)\.Flush$`, `Flush\(g\.headBuf\)`)
+		sync := CallTo(`^\(\*lib/autofile\.AutoFile\)\.Sync$`, `Sync\(g\.Head\)`)
+		c.OnEveryPath(fn, "headBuf.Flush()", flush, "return", AnyReturn())
+		c.Precedes(fn, "headBuf.Flush()", flush, "Head.Sync()", sync)
+		// a nil error is returned only after Sync
+		c.Guarded(fn, "Head.Sync()", sync, G("Flush error == nil", IsNil(`^call:\(\*bufio\.Writer\)\.Flush\(g\.headBuf\)$`)))
+		n := len(findInstrs(fn, sync))
+		c.Check("O", fnName(fn)+"/calls Head.Sync()", n == 1, fn.Pos(), n, "FlushAndSync must fsync the head file")
+		okRet := false
+		for _, in := range findInstrs(fn, AnyReturn()) {
+			p := pathOf(in.(*ssa.Return).Results[0])
+			okRet = strings.Contains(p, "call:(*lib/autofile.AutoFile).Sync(g.Head)") || strings.Contains(p, "alloc")
+		}
+		c.Check("O", fnName(fn)+"/returns Sync's error when Flush succeeded", okRet, fn.Pos(), 1, "")
+	}
+	if fn := c.Fn("lib/autofile", "AutoFile", "Sync"); fn != nil {
+		n := len(findInstrs(fn, CallTo(`^\(\*os\.File\)\.Sync$`, `Sync\(af\.file\)`)))
+		c.Check("O", fnName(fn)+"/calls file.Sync()", n == 1, fn.Pos(), n, "")
+		c.Guarded(fn, "file.Sync()", CallTo(`^\(\*os\.File\)\.Sync$`, ""), G("file is open (or openFile succeeded)", NotNil(`^af\.file$`), IsNil(`^call:\(\*lib/autofile\.AutoFile\)\.openFile\(af\)$`)))
 	}
 }
